@@ -11,15 +11,15 @@ PROPS = {
         {"sub": "C01f", "kind": "fuzz", "run": "FuzzC01Datagram", "tiers": ["thorough"], "quick": 0, "thorough": 90},
     ]},
     "C02": {"jobs": [
-        rapid("C02a", 4000, 20000, shards=6, race_shards=1),
+        rapid("C02a", 4000, 20000, shards=6, race_shards=1, gomaxprocs=[16, 4, 1]),
         rapid("C02b", 2500, 10000, shards=4),
     ]},
     "C03": {"jobs": [
-        rapid("C03a", 5000, 25000, shards=8, race_shards=2),
+        rapid("C03a", 5000, 25000, shards=8, race_shards=2, gomaxprocs=[16, 4, 1, 2]),
         rapid("C03b", 60, 300, shards=2),
     ]},
     "C04": {"jobs": [
-        rapid("C04a", 5000, 25000, shards=8, race_shards=1),
+        rapid("C04a", 5000, 25000, shards=8, race_shards=1, gomaxprocs=[16, 4, 1]),
     ]},
     "C17": {"jobs": [
         rapid("C17a", 30000, 200000, shards=4),
@@ -68,7 +68,7 @@ PROPS = {
     ]},
     "C13": {"jobs": [
         rapid("C13a", 1500, 6000, shrinktime="15s"),
-        rapid("C13b", 1500, 8000, shrinktime="15s", race_shards=1),
+        rapid("C13b", 1500, 8000, shrinktime="15s", race_shards=1, gomaxprocs=[16, 2]),
         rapid("C13c", 24, 80, shards=1),
     ]},
     "C19": {"jobs": [
